@@ -64,9 +64,9 @@ package inprocgrpc
 //@   ensures[C05] at_most_one_server_goroutine: calls("go") <= 1
 //@   chan_cap_bound[C20] 1
 //@   blocking_escape[C05,C04] ctx
-//@   loop loop#1 invariant[C08] one_copy_per_response: (gotResponse <==> calls("inprocgrpc.Cloner.Copy") == 1) && calls("inprocgrpc.Cloner.Copy") <= 1 && calls("go") == 1 && calls("context.WithCancel") == 1 && !called("context.CancelFunc") && !called("internal.TranslateContextError")
+//@   loop loop#1 invariant[C08,C06] one_copy_per_response: (gotResponse <==> calls("inprocgrpc.Cloner.Copy") == 1) && calls("inprocgrpc.Cloner.Copy") <= 1 && calls("go") == 1 && calls("context.WithCancel") == 1 && !called("context.CancelFunc") && !called("internal.TranslateContextError")
 //@   loop loop#1 invariant[C02,C01] a_failed_copy_ends_the_loop: called("inprocgrpc.Cloner.Copy") ==> lastresult("inprocgrpc.Cloner.Copy") == nil
-//@   ensures[C08] success_means_exactly_one_response_was_copied: result == nil && called("go") ==> calls("inprocgrpc.Cloner.Copy") == 1
+//@   ensures[C08,C06] success_means_exactly_one_response_was_copied: result == nil && called("go") ==> calls("inprocgrpc.Cloner.Copy") == 1
 //@   assert_call[C06,C01] inprocgrpc.Cloner.Copy : response_is_copied_into_the_callers_message: arg1 == resp && arg2 == r.data && r.data != nil
 //@   ensures[C04] never_a_bare_context_error: called("go") && result != context.Canceled && result != context.DeadlineExceeded || !called("go") || called("inprocgrpc.Cloner.Copy")
 //@   ensures[C02,C04] error_frame_is_translated: called("internal.TranslateContextError") ==> result == lastresult("internal.TranslateContextError")
@@ -162,10 +162,13 @@ package inprocgrpc
 //@   ensures[C03] closed_stream_trailers_refused_and_nothing_changes: at_lock(s.state == 2) ==> result != nil && s.trailers == at_lock(s.trailers) && (forall k string :: has(s.trailers, k) == at_lock(has(s.trailers, k)) && s.trailers[k] == at_lock(s.trailers[k]))
 //@   loop loop#1 invariant[C03] map_ready: md != at_lock(s.trailers) ==> s.trailers != nil && s.trailers != md && !(s.state == 2) && held(&s.mu) && (at_lock(s.trailers) != nil ==> s.trailers == at_lock(s.trailers))
 //@   loop loop#1 invariant[C03] visited_keys_grew_others_unchanged: md != at_lock(s.trailers) ==> (forall k string :: (iter_visited(k) && has(md, k) ==> has(s.trailers, k) && len(s.trailers[k]) == at_lock(len(s.trailers[k])) + len(md[k])) && (!iter_visited(k) ==> has(s.trailers, k) == at_lock(has(s.trailers, k)) && (has(s.trailers, k) ==> s.trailers[k] == at_lock(s.trailers[k]))))
+//@   loop loop#1 invariant[C03] values_of_new_keys_are_copies: md != at_lock(s.trailers) ==> (forall k string :: iter_visited(k) && has(md, k) && len(md[k]) > 0 && !at_lock(has(s.trailers, k)) ==> fresh_backing(s.trailers[k]))
 //@   loop loop#1 invariant[C03] source_map_unchanged: md != at_lock(s.trailers) ==> (forall k string :: has(md, k) == at_lock(has(md, k)) && md[k] == at_lock(md[k]) && (iter_visited(k) ==> has(md, k)))
 //@   ensures[C03] every_given_key_grows_by_its_values: !at_lock(s.state == 2) && md != at_lock(s.trailers) ==> (forall k string :: has(md, k) ==> has(s.trailers, k) && len(s.trailers[k]) == at_lock(len(s.trailers[k])) + len(md[k]))
 //@   ensures[C03] other_keys_keep_their_values: !at_lock(s.state == 2) && md != at_lock(s.trailers) ==> (forall k string :: !has(md, k) ==> has(s.trailers, k) == at_lock(has(s.trailers, k)) && (has(s.trailers, k) ==> s.trailers[k] == at_lock(s.trailers[k])))
 //@   ensures[C03] open_stream_accepts_trailers: !at_lock(s.state == 2) ==> result == nil
+//@   ensures[C03,C10] values_of_new_keys_never_share_the_handlers_slices: !at_lock(s.state == 2) && md != at_lock(s.trailers) ==> (forall k string :: has(md, k) && len(md[k]) > 0 && !at_lock(has(s.trailers, k)) ==> fresh_backing(s.trailers[k]))
+//@   ensures[C03,C10] the_accumulator_is_the_streams_own_map_never_the_handlers: !at_lock(s.state == 2) && md != at_lock(s.trailers) ==> s.trailers != nil && s.trailers != md && (at_lock(s.trailers) != nil ==> s.trailers == at_lock(s.trailers))
 //@   modifies s.trailers, maps("metadata.MD"), mem("string")
 //
 //@ func (*inProcessServerStream).setHeader
@@ -173,10 +176,13 @@ package inprocgrpc
 //@   ensures[C03] headers_after_they_were_sent_refused_and_nothing_changes: at_lock(s.state != 0) ==> result != nil && s.headers == at_lock(s.headers) && (forall k string :: has(s.headers, k) == at_lock(has(s.headers, k)) && s.headers[k] == at_lock(s.headers[k]))
 //@   loop loop#1 invariant[C03] map_ready: md != at_lock(s.headers) ==> s.headers != nil && s.headers != md && !(s.state != 0) && held(&s.mu) && (at_lock(s.headers) != nil ==> s.headers == at_lock(s.headers))
 //@   loop loop#1 invariant[C03] visited_keys_grew_others_unchanged: md != at_lock(s.headers) ==> (forall k string :: (iter_visited(k) && has(md, k) ==> has(s.headers, k) && len(s.headers[k]) == at_lock(len(s.headers[k])) + len(md[k])) && (!iter_visited(k) ==> has(s.headers, k) == at_lock(has(s.headers, k)) && (has(s.headers, k) ==> s.headers[k] == at_lock(s.headers[k]))))
+//@   loop loop#1 invariant[C03] values_of_new_keys_are_copies: md != at_lock(s.headers) ==> (forall k string :: iter_visited(k) && has(md, k) && len(md[k]) > 0 && !at_lock(has(s.headers, k)) ==> fresh_backing(s.headers[k]))
 //@   loop loop#1 invariant[C03] source_map_unchanged: md != at_lock(s.headers) ==> (forall k string :: has(md, k) == at_lock(has(md, k)) && md[k] == at_lock(md[k]) && (iter_visited(k) ==> has(md, k)))
 //@   ensures[C03] every_given_key_grows_by_its_values: !at_lock(s.state != 0) && md != at_lock(s.headers) && !send ==> (forall k string :: has(md, k) ==> has(s.headers, k) && len(s.headers[k]) == at_lock(len(s.headers[k])) + len(md[k]))
 //@   ensures[C03] other_keys_keep_their_values: !at_lock(s.state != 0) && md != at_lock(s.headers) && !send ==> (forall k string :: !has(md, k) ==> has(s.headers, k) == at_lock(has(s.headers, k)) && (has(s.headers, k) ==> s.headers[k] == at_lock(s.headers[k])))
 //@   ensures[C03] send_flushes_through_sendHeadersLocked: send && !at_lock(s.state != 0) ==> calls("(*inProcessServerStream).sendHeadersLocked") == 1 && result == lastresult("(*inProcessServerStream).sendHeadersLocked")
+//@   ensures[C03,C10] the_accumulator_is_the_streams_own_map_never_the_handlers: !at_lock(s.state != 0) && md != at_lock(s.headers) && !send ==> s.headers != nil && s.headers != md && (at_lock(s.headers) != nil ==> s.headers == at_lock(s.headers))
+//@   ensures[C03,C10] values_of_new_keys_never_share_the_handlers_slices: !at_lock(s.state != 0) && md != at_lock(s.headers) && !send ==> (forall k string :: has(md, k) && len(md[k]) > 0 && !at_lock(has(s.headers, k)) ==> fresh_backing(s.headers[k]))
 //@   ensures[C03] plain_set_sends_nothing: !send ==> !called("(*inProcessServerStream).sendHeadersLocked") && (!at_lock(s.state != 0) ==> result == nil)
 //@   modifies everything
 //
